@@ -356,7 +356,7 @@ def run_op(op, pre, case='isotropic'):
                 sim.fields['survey'].fields.update(name=None, date=None, info=None)
                 sim.fields.update(name=None, info=None, layered_opts={})
                 v = it.call(it.getattr(sim, 'to_dict'), ['computed', False], {})
-            elif op == 'reload':
+            elif op in ('reload', 'reload_results'):
                 # Simulation.from_dict(sim.to_dict(what='computed')) -- the step every copy(), to_file / from_file and CLI --load / --cache goes through.
                 # Survey / Model.to_dict / from_dict give back an equal survey / model (assumed; here: the object itself); the constructor gives a
                 # simulation in the plain state for them (its own contract: run_op('compute', 'plain') etc. start from that state)
@@ -384,7 +384,7 @@ def run_op(op, pre, case='isotropic'):
                     return new
                 ctx.summaries.update({'surveys.Survey.to_dict': obj_to_dict, 'models.Model.to_dict': obj_to_dict, 'surveys.Survey.from_dict': obj_from_dict,
                                       'models.Model.from_dict': obj_from_dict, 'simulations.Simulation': new_simulation, 'io._dict_deserialize': lambda it_, a, k, n: None})
-                d = it.call(it.getattr(sim, 'to_dict'), ['computed', False], {})
+                d = it.call(it.getattr(sim, 'to_dict'), ['computed' if op == 'reload' else 'results', False], {})
                 fnode, _, _ = intake.func('simulations.Simulation.from_dict')
                 v = it.call(cx.Closure(fnode, {}, it, qualname='simulations.Simulation.from_dict', self_obj=cx.ClassRef('simulations', 'Simulation')), [d], {})
                 st['reloaded'] = v
@@ -396,7 +396,7 @@ def run_op(op, pre, case='isotropic'):
     return cx.explore(run)
 
 
-OPS = ('compute', 'misfit', 'gradient', 'get_efield', 'clean_computed', 'clean_keepresults', 'clean_all', 'jtvec', 'jvec', 'model_update', 'to_dict', 'reload')
+OPS = ('compute', 'misfit', 'gradient', 'get_efield', 'clean_computed', 'clean_keepresults', 'clean_all', 'jtvec', 'jvec', 'model_update', 'to_dict', 'reload', 'reload_results')
 
 
 def replay(d):
@@ -414,7 +414,7 @@ def task_op(op):
         if op == 'jtvec' and pre in ('plain', 'computed', 'partial', 'computed_old_weights'):
             continue       # jtvec needs weights: documented to be used with the weighted residual after a misfit evaluation
         res += run_op(op, pre)
-    if op == 'reload':
+    if op in ('reload', 'reload_results'):
         for r in res:
             if r.outcome == 'return' and isinstance(r.state.get('reloaded'), cx.Obj):
                 r.state['original'], r.state['sim'] = r.state['sim'], r.state['reloaded']
@@ -509,7 +509,7 @@ def task_op(op):
                 return False
             return so['tol'] == r.state['sim'].fields['tol_forward']
         clause(col, 'stored_solver_options_carry_the_forward_tolerance_whatever_the_history', res, stored_tol)
-    if op == 'reload':
+    if op in ('reload', 'reload_results'):
         def same_state(r):
             # what comes back from the dictionary is the simulation that went in: computed flag, cached misfit and gradient, fields and solver
             # information of every slot -- carried over as they are, nothing inferred, nothing dropped
@@ -523,7 +523,9 @@ def task_op(op):
             ok = B['_computed'] is A['_computed'] and same(A['_misfit'], B['_misfit']) and same(A['_gradient'], B['_gradient'])
             ok = ok and B['survey'] is A['survey'] and B['model'] is A['model']
             for name in ('_dict_efield', '_dict_efield_info', '_dict_bfield', '_dict_bfield_info'):
-                if name in A:
+                if op == 'reload_results':       # what='results': responses, misfit, gradient and the flag, but no fields
+                    ok = ok and (name not in B or B[name][SRC][FRQ] is None)
+                elif name in A:
                     ok = ok and name in B and B[name][SRC][FRQ] is A[name][SRC][FRQ]
             return ok
         clause(col, 'reloaded_simulation_has_the_computed_flag_the_cached_misfit_and_gradient_and_the_fields_of_the_original', res, same_state, sample=True)
